@@ -276,15 +276,24 @@ def val_diff(a, b):
     return None if a == b else '%r vs %r' % (a, b)
 
 
-def state_diff(sa, sb):
-    """first differing public attribute of two pubstate dicts"""
+STORED = ('df', 'gf', 'sample', 'target')     # the object's own working copies of the caller's frame
+
+
+def state_diffs(sa, sb):
+    """differing public attributes of two pubstate dicts: (results, latent).  `latent` = differences confined to the object's
+    own working frame (scratch columns such as _ipfw_); they are not results and not the caller's data"""
+    strict, latent = [], []
     for k in sorted(set(sa) | set(sb)):
         if k not in sa or k not in sb:
-            return '%s: attribute exists only on one side' % k
+            strict.append('%s: attribute exists only on one side' % k)
+            continue
         d = val_diff(sa[k], sb[k])
         if d:
-            return '%s: %s' % (k, d)
-    return None
+            if k in STORED and isinstance(sa[k], tuple) and sa[k][0] == 'frame':
+                latent.append('%s: %s' % (k, d))
+            else:
+                strict.append('%s: %s' % (k, d))
+    return strict, latent
 
 
 # ================================================================================================ data
@@ -1009,7 +1018,7 @@ class FamSNM(Fam):
             o.missing_model(s['den'], model_numerator=s['num'], stabilized=s['stabilized'], bound=s['bound'], print_results=False)
 
     def gen_fit(self, rng, cfg):
-        return {'solver': rng.choice(['closed', 'closed', 'closed', 'search'])}
+        return {'solver': rng.choice(['closed'] * 6 + ['search'])}
 
     def do_fit(self, o, a, inp):
         if a['solver'] == 'search':
@@ -1042,8 +1051,10 @@ class FamIPSW(Fam):
 
     def gen_spec(self, rng, slot, cfg):
         stab = rng.random() < 0.6
+        # stabilized=False with a bound is not generated for sampling_model: the constant integer numerator 1 is truncated to 0 by
+        # probability_bounds (int array), every weight becomes 0 and fit() raises ZeroDivisionError -- a truncation defect (C17), not C11
         return {'den': rng.choice(['W0 + C0', 'W0', 'W0 + I(W0**2) + C0']), 'num': rng.choice(['1', '1', 'C0']) if stab else '1',
-                'stabilized': stab, 'bound': rng.choice([None, None, 0.1, [0.1, 0.9]])}
+                'stabilized': stab, 'bound': rng.choice([None, None, 0.1, [0.1, 0.9]]) if (stab or slot == 1) else None}
 
     def do_spec(self, o, slot, s, inp):
         m = o.sampling_model if slot == 0 else o.treatment_model
@@ -1388,7 +1399,7 @@ def run_ops(fam, case, ops, watch=True):
     """execute a call list on a new object.  Returns dict: obj, events [(method, error or None)], problems [(key, what)],
     stopped (index of the call after which the history was abandoned, or None)"""
     inputs, snaps = build(fam, case)
-    out = {'obj': None, 'events': [], 'problems': [], 'stopped': None, 'inputs': inputs, 'n': len(inputs['df'])}
+    out = {'obj': None, 'events': [], 'problems': [], 'stopped': None, 'inputs': inputs, 'n': len(inputs['df']), 'latent': set()}
     try:
         with quiet():
             obj = fam.construct(inputs, case['cfg'])
@@ -1416,10 +1427,12 @@ def run_ops(fam, case, ops, watch=True):
             out['problems'].append(('%s.%s.mutates-input' % (fam.name, m), 'call %d (%s) changed the caller\'s %s' % (i, m, d)))
             snaps = {k: snapshot(v) for k, v in inputs.items()}
         if watch and (op[0] in ('summary', 'diag') or (err is not None and op[0] == 'fit')):
-            d = state_diff(before, pubstate(obj))
+            d, lat = state_diffs(before, pubstate(obj))
             if d:
                 kind = 'a raising' if err else 'the'
-                out['problems'].append(('%s.%s.changes-state' % (fam.name, m), '%s call %d (%s) changed the public attribute %s' % (kind, i, m, d)))
+                out['problems'].append(('%s.%s.changes-state' % (fam.name, m), '%s call %d (%s) changed the public attribute %s' % (kind, i, m, d[0])))
+            for x in lat:
+                out['latent'].add('%s.%s writes the object\'s working frame (%s)' % (fam.name, m, x[:120]))
     return out
 
 
@@ -1480,8 +1493,8 @@ def check_history(fam, case, ops, model, coding, info=None):
                                   % (i, ' / '.join(fam.slots[s] for s in fam.required if ready[s] is None) + ' was')))
                 elif info is not None:
                     info['summary-before-fit-silent'].add(fam.name)
-            if code == 0 and err:
-                probs.append(('%s.summary.raises' % fam.name, 'call %d summary() raised %s after a completed fit' % (i, err)))
+            if code == 0 and err and info is not None:
+                info['diagnostic-raises'].setdefault('%s.summary' % fam.name, err)
         else:
             if info is not None:
                 if code == 0 and err:
@@ -1500,20 +1513,27 @@ def check_history(fam, case, ops, model, coding, info=None):
     # ---- the fresh object of the model's normal form
     nf_ops = coding.decode(model['nf'])
     f = run_ops(fam, case, nf_ops, watch=False)
-    bad = [e for e in f['events'] if e[1]]
+    exp_nf = py_model(fam, model['nf'])['outs']
+    bad = [(o[0], e[1]) for o, e, c in zip(nf_ops, f['events'], exp_nf) if o[0] in ('spec', 'fit') and bool(e[1]) != bool(c)]
     if f['stopped'] is not None or bad:
-        probs.append(('%s.fresh-object.raises' % fam.name, 'the fresh object given only the last specifications raised: %r' % (bad[:1] or f['problems'][:1],)))
+        probs.append(('%s.fresh-object.raises' % fam.name, 'the fresh object given only the last specifications behaved unlike the model: %r'
+                      % (bad[:1] or f['problems'][:1],)))
         return probs, h
     if fam.causal or sum(1 for o in ops if o[0] == 'fit') <= 1:
-        d = state_diff(pubstate(h['obj']), pubstate(f['obj']))
+        ds, lat = state_diffs(pubstate(h['obj']), pubstate(f['obj']))
+        d = ds[0] if ds else None
+        attr = d.split(':', 1)[0] if d else None
+        for x in lat:
+            h['latent'].add('%s: working frame differs from the fresh object (%s)' % (fam.name, x[:120]))
         if d is None and fam.summary and model['results'] is not None:
             ta, tb = summary_text(fam, h['obj']), summary_text(fam, f['obj'])
             if ta != tb:
                 la, lb = ta.splitlines(), tb.splitlines()
                 k = next((j for j in range(min(len(la), len(lb))) if la[j] != lb[j]), min(len(la), len(lb)))
                 d = 'summary() text line %d: %r vs %r' % (k, la[k] if k < len(la) else None, lb[k] if k < len(lb) else None)
+                attr = 'summary'
         if d:
-            probs.append(('%s.history-dependent' % fam.name, 'after the history the object differs from a fresh object given only [%s]: %s'
+            probs.append(('%s.history-dependent.%s' % (fam.name, attr), 'after the history the object differs from a fresh object given only [%s]: %s'
                           % ('; '.join(describe(fam, case, [o]).split('] ', 1)[1] for o in nf_ops), d)))
     return probs, h
 
@@ -1524,7 +1544,7 @@ IMPORTS = ['Zepid.Model.History']
 
 def new_info():
     return {'summary-before-fit-silent': set(), 'diagnostic-raises': {}, 'diagnostic-without-models-silent': set(),
-            'base-refit': {}, 'notes': []}
+            'base-refit': {}, 'notes': [], 'latent': set()}
 
 
 def make_cases(ctx, fams, per_class):
@@ -1621,6 +1641,8 @@ def history_part(ctx, fails, info, cases=None):
             probs, h = [('%s.harness' % fam.name, 'driver error %s %s' % (errstr(e), traceback.format_exc()[-600:]))], {'n': 0, 'events': []}
         per_fam[fam.name] = per_fam.get(fam.name, 0.0) + time.time() - t
         ctx.programs += 1
+        for x in h.get('latent', ()):
+            info['latent'].add(x)
         ctx.disagreements_checked += len(c['ops'])
         lab = getattr(fam, 'label', fam.name)
         ctx.count('class:' + lab)
@@ -1690,6 +1712,7 @@ def finish_info(ctx, info):
         'summary_prints_without_raising_when_models_specified_but_not_fit': sorted(info['summary-before-fit-silent']),
         'diagnostics_silent_without_models': sorted(info['diagnostic-without-models-silent']),
         'effect_measure_classes_second_fit': info['base-refit'],
+        'latent_state_in_the_objects_own_working_frame_not_results_not_caller_data': sorted(info['latent'])[:40],
     }
     ctx.notes += info['notes']
 
@@ -1719,3 +1742,351 @@ def replay(ctx, payload):
 
 EXTRA_PARTS = []
 PART_BY_NAME = {}
+
+
+# ================================================================================================ probes outside the refit clause
+def base_refit_part(ctx, fails, info, only=None):
+    """second fit() on one effect-measure object: the property does not claim history independence for zepid.base classes,
+    so the behaviour is recorded (evidence) and only a change of the caller's frame is a violation"""
+    for fam in [f for f in families() if not f.causal]:
+        for _ in range(1 if ctx.quick else 5):
+            cfg = fam.gen_cfg(ctx.rng)
+            case = {'cfg': cfg, 'data_seed': ctx.rng.randrange(2 ** 31)}
+            inputs, snaps = build(fam, case)
+            ctx.evaluations += 1
+            try:
+                with quiet():
+                    o = fam.construct(inputs, cfg)
+                    fam.do_fit(o, {}, inputs)
+                first = pubstate(o)
+                try:
+                    with quiet():
+                        fam.do_fit(o, {}, inputs)
+                    d, _ = state_diffs(first, pubstate(o))
+                    beh = 'second fit returns: ' + ('same results' if not d else 'DIFFERENT results (%s)' % d[0][:80])
+                except Exception as e:   # noqa
+                    beh = 'second fit raises ' + errstr(e)[:80]
+            except Exception as e:   # noqa
+                beh = 'first fit raises ' + errstr(e)[:80]
+            info['base-refit'][fam.name] = beh
+            d = inputs_changed(inputs, snaps)
+            if d:
+                fails.append((len(inputs['df']), '%s.fit.mutates-input' % fam.name, 'fit() twice changed the caller\'s %s' % d,
+                              {'part': 'base_refit'}))
+
+
+def mc_add_twice_part(ctx, fails, info, only=None):
+    """MonteCarloGFormula.add_covariate_model is additive by name; calling it twice for one covariate keeps both models.
+    Recorded, not failed (see RULE)."""
+    fam = FamMonteCarlo()
+    cfg = fam.gen_cfg(ctx.rng)
+    case = {'cfg': cfg, 'data_seed': ctx.rng.randrange(2 ** 31)}
+    base = [['spec', 0, {'model': 'L1 + lag_A + W', 'restriction': None}], ['spec', 1, {'model': 'A + L1 + W + t_in'}]]
+    fit = ['fit', {'treatment': 'natural', 'sample': 80, 't_max': None, 'seed': 11, 'low_memory': True}]
+    a = run_ops(fam, case, base + [['spec', 3, {'model': 'lag_L1'}], ['spec', 3, {'model': 'lag_L1 + lag_A + W'}], fit], watch=False)
+    b = run_ops(fam, case, base + [['spec', 3, {'model': 'lag_L1 + lag_A + W'}], fit], watch=False)
+    ctx.evaluations += 1
+    for r in (a, b):
+        for key, what in r['problems']:
+            fails.append((r['n'], key, what, {'part': 'mc_add_twice'}))
+    if a['obj'] is not None and b['obj'] is not None and not any(e[1] for e in a['events'] + b['events']):
+        d, _ = state_diffs(pubstate(a['obj']), pubstate(b['obj']))
+        n = len(a['obj']._covariate_models)
+        info['notes'].append('MonteCarloGFormula.add_covariate_model called twice for one covariate keeps %d models (the API appends); '
+                             'results %s a fresh object given only the second model -- recorded, outside the refit clause as read here'
+                             % (n, 'differ from' if d else 'equal'))
+
+
+# ================================================================================================ functions taking arrays / frames
+def _containers(rng, x):
+    """the same float vector as the containers a caller may pass"""
+    kind = rng.choice(['ndarray', 'readonly', 'series', 'series_idx', 'list'])
+    x = np.array(x, dtype=float)
+    if kind == 'ndarray':
+        return kind, x
+    if kind == 'readonly':
+        x.flags.writeable = False
+        return kind, x
+    if kind == 'series':
+        return kind, pd.Series(x)
+    if kind == 'series_idx':
+        return kind, pd.Series(x, index=['r%d' % i for i in range(len(x))], name='p')
+    return kind, [float(v) for v in x]
+
+
+def function_table():
+    """name -> builder(rng) -> (inputs dict, thunk)"""
+    import zepid
+    import zepid.calc as zc
+    import zepid.causal.utils as cu
+    import zepid.causal.doublyrobust.utils as du
+    import zepid.graphics as zg
+    from zepid.superlearner import EmpiricalMeanSL, GLMSL, StepwiseSL, SuperLearner
+    import statsmodels.api as sm
+    T = {}
+
+    def probs(rng, n=None, lo=0.001, hi=0.999):
+        n = n or rng.randint(5, 60)
+        return [round(rng.uniform(lo, hi), 6) for _ in range(n)]
+
+    def pb(rng):
+        k, v = _containers(rng, probs(rng))
+        b = rng.choice([0.1, 0.3, [0.2, 0.7], np.array([0.05, 0.9]), (0.1, 0.6)])
+        inp = {'v': v, 'bounds': b}
+        return inp, lambda: zc.probability_bounds(inp['v'], inp['bounds'])
+    T['calc.probability_bounds'] = pb
+
+    for nm, f, dom in (('probability_to_odds', zc.probability_to_odds, (0.01, 0.99)), ('odds_to_probability', zc.odds_to_probability, (0.01, 9.0)),
+                       ('logit', zc.logit, (0.01, 0.99)), ('inverse_logit', zc.inverse_logit, (-4.0, 4.0)), ('s_value', zc.s_value, (0.001, 0.999))):
+        def mk(rng, f=f, dom=dom):
+            k, v = _containers(rng, probs(rng, lo=dom[0], hi=dom[1]))
+            if k == 'list' and f not in (zc.s_value,):
+                v = np.array(v)
+            inp = {'v': v}
+            return inp, lambda: f(inp['v'])
+        T['calc.' + nm] = mk
+
+    def rr(rng):
+        m = rng.randint(3, 8)
+        k, est = _containers(rng, [rng.gauss(0.3, 0.2) for _ in range(m)])
+        k2, se = _containers(rng, [rng.uniform(0.05, 0.3) for _ in range(m)])
+        inp = {'est': est, 'se': se}
+        return inp, lambda: zc.rubins_rules(inp['est'], inp['se'])
+    T['calc.rubins_rules'] = rr
+
+    def tub(rng):
+        k, y = _containers(rng, [round(rng.gauss(5, 2), 3) for _ in range(rng.randint(5, 50))])
+        if k == 'list':
+            y = np.array(y)
+        inp = {'y': y}
+        lo, hi = float(np.min(y)), float(np.max(y))
+        return inp, lambda: (du.tmle_unit_bounds(inp['y'], lo, hi, 0.01), du.tmle_unit_unbound(inp['y'], lo, hi))
+    T['doublyrobust.utils.tmle_unit_bounds/unbound'] = tub
+
+    def aipw(rng):
+        n = rng.randint(20, 60)
+        rs = np.random.RandomState(rng.randrange(2 ** 31))
+        inp = {'y': rs.binomial(1, 0.5, n).astype(float), 'a': rs.binomial(1, 0.5, n), 'py_a': rs.uniform(0.1, 0.9, n), 'py_n': rs.uniform(0.1, 0.9, n),
+               'pa1': rs.uniform(0.2, 0.8, n), 'w': rs.randint(1, 4, n).astype(float)}
+        inp['pa0'] = 1 - inp['pa1']
+        if rng.random() < 0.5:
+            inp['y'][:3] = np.nan
+        ro = rng.random() < 0.5
+        for v in inp.values():
+            v.flags.writeable = not ro
+        wt = inp['w'] if rng.random() < 0.4 else None
+        return inp, lambda: (cu.aipw_calculator(inp['y'], inp['a'], inp['py_a'], inp['py_n'], inp['pa1'], inp['pa0'], difference=True, weights=wt),
+                             cu.aipw_calculator(inp['y'], inp['a'], inp['py_a'], inp['py_n'], inp['pa1'], inp['pa0'], difference=False, weights=wt))
+    T['causal.utils.aipw_calculator'] = aipw
+
+    def frame(rng, **kw):
+        cfg = {'outcome': kw.get('outcome', 'binary'), 'missing': kw.get('missing', rng.choice([None, 'mcar'])), 'index': rng.choice(INDEXES), 'fw': True}
+        return gen_frame(rng, cfg)
+
+    def ps(rng):
+        inp = {'df': frame(rng)}
+        return inp, lambda: cu.propensity_score(inp['df'], 'A ~ W0 + C0', weights=rng.choice([None, 'fw']), print_results=False).predict(inp['df'])
+    T['causal.utils.propensity_score'] = ps
+
+    def ic(rng):
+        inp = {'df': frame(rng)}
+        b = rng.choice([None, 0.1, [0.1, 0.8]])
+        st = rng.random() < 0.5
+        return inp, lambda: cu.iptw_calculator(inp['df'], 'A', 'W0 + C0', 'C0' if st else '1', None, st, rng.choice(['population', 'exposed', 'unexposed']), b, False)
+    T['causal.utils.iptw_calculator'] = ic
+
+    def scc(rng):
+        inp = {'df': frame(rng), 'conditional': ["df['C0']==1", "df['C0']==0"]}
+        return inp, lambda: cu.stochastic_check_conditional(inp['df'], inp['conditional'])
+    T['causal.utils.stochastic_check_conditional'] = scc
+
+    def cdiag(rng):
+        df = frame(rng, missing=None)
+        df['w'] = np.round(np.random.RandomState(rng.randrange(2 ** 31)).uniform(0.5, 3, len(df)), 4)
+        df['p'] = np.round(np.random.RandomState(rng.randrange(2 ** 31)).uniform(0.1, 0.9, len(df)), 4)
+        inp = {'df': df}
+        which = rng.choice(['positivity', 'smd', 'plot_kde', 'plot_boxplot', 'plot_love', 'accuracy'])
+        if which == 'positivity':
+            return inp, lambda: cu.positivity(inp['df'], 'w')
+        if which == 'smd':
+            return inp, lambda: cu.standardized_mean_differences(inp['df'], 'A', 'w', 'W0 + C0 + C(C1)')
+        if which == 'plot_kde':
+            return inp, lambda: cu.plot_kde(inp['df'], 'A', 'p')
+        if which == 'plot_boxplot':
+            return inp, lambda: cu.plot_boxplot(inp['df'], 'A', 'p')
+        if which == 'plot_love':
+            return inp, lambda: cu.plot_love(inp['df'], 'A', 'w', 'W0 + C0')
+        return inp, lambda: (cu.outcome_accuracy(inp['df']['Y'], inp['df']['p']), cu.plot_kde_accuracy(inp['df']['Y'] - inp['df']['p']))
+    T['causal.utils.diagnostic-functions'] = cdiag
+
+    def spl(rng):
+        inp = {'df': frame(rng), 'knots': [-0.5, 0.0, 0.6]}
+        r = rng.random() < 0.5
+        if rng.random() < 0.5:
+            return inp, lambda: zepid.spline(inp['df'], 'W0', n_knots=3, knots=inp['knots'], term=rng.choice([1, 2]), restricted=r)
+        return inp, lambda: zepid.spline(inp['df'], 'W0', n_knots=rng.choice([2, 3, 4]), restricted=r)
+    T['base.spline'] = spl
+
+    def cst(rng):
+        k, x = _containers(rng, [round(rng.gauss(0, 1), 3) for _ in range(rng.randint(20, 60))])
+        inp = {'x': x if k != 'list' else np.array(x)}
+
+        def go():
+            f, pts = zepid.create_spline_transform(inp['x'], n_knots=3, restricted=rng.random() < 0.5)
+            return f(inp['x'])
+        return inp, go
+    T['base.create_spline_transform'] = cst
+
+    def t1(rng):
+        inp = {'df': frame(rng), 'cols': ['W0', 'C0', 'C1'], 'types': ['continuous', 'category', 'category']}
+        return inp, lambda: zepid.table1_generator(inp['df'], inp['cols'], inp['types'], strat_by=rng.choice([None, 'A']))
+    T['base.table1_generator'] = t1
+
+    def icr(rng):
+        inp = {'df': frame(rng, missing=None), 'adjust': 'W0'}
+        if rng.random() < 0.5:
+            return inp, lambda: zepid.interaction_contrast(inp['df'], 'A', 'Y', 'C0', adjust=rng.choice([None, 'W0']), print_results=False)
+        return inp, lambda: zepid.interaction_contrast_ratio(inp['df'], 'A', 'Y', 'C0', adjust=rng.choice([None, 'W0']), print_results=False)
+    T['base.interaction_contrast(_ratio)'] = icr
+
+    def gfx(rng):
+        which = rng.choice(['functional_form_plot', 'roc', 'spaghetti_plot', 'dynamic_risk_plot', 'zipper_plot', 'labbe_plot'])
+        if which == 'functional_form_plot':
+            inp = {'df': frame(rng)}
+            return inp, lambda: zg.functional_form_plot(inp['df'], 'Y', 'W0', f_form=rng.choice([None, 'W0 + I(W0**2)']))
+        if which == 'roc':
+            df = frame(rng, missing=None)
+            df['score'] = np.round(np.random.RandomState(rng.randrange(2 ** 31)).uniform(0, 1, len(df)), 3)
+            inp = {'df': df}
+            return inp, lambda: zg.roc(inp['df'], 'Y', 'score')
+        if which == 'spaghetti_plot':
+            inp = {'df': gen_long(rng, {'index': rng.choice(INDEXES)})}
+            return inp, lambda: zg.spaghetti_plot(inp['df'], 'id', 'W', 't')
+        if which == 'dynamic_risk_plot':
+            t = list(range(1, 9))
+            r1 = pd.Series(np.cumsum([0.02 * rng.random() + 0.01 for _ in t]), index=t)
+            r0 = pd.Series(np.cumsum([0.02 * rng.random() + 0.01 for _ in t]), index=t)
+            inp = {'r1': r1, 'r0': r0}
+            return inp, lambda: zg.dynamic_risk_plot(inp['r1'], inp['r0'], measure=rng.choice(['RD', 'RR']), loess=rng.random() < 0.5)
+        if which == 'zipper_plot':
+            m = rng.randint(5, 20)
+            c = np.array([rng.gauss(0, 0.3) for _ in range(m)])
+            inp = {'lcl': c - 0.4, 'ucl': c + 0.4}
+            return inp, lambda: zg.zipper_plot(0.0, inp['lcl'], inp['ucl'])
+        inp = {'r1': np.array(probs(rng, 6, 0.05, 0.9)), 'r0': np.array(probs(rng, 6, 0.05, 0.9))}
+        return inp, lambda: zg.labbe_plot(inp['r1'], inp['r0'], scale=rng.choice(['both', 'additive', 'multiplicative']))
+    T['graphics'] = gfx
+
+    def sl(rng):
+        n = rng.randint(40, 90)
+        rs = np.random.RandomState(rng.randrange(2 ** 31))
+        X = np.round(rs.normal(size=(n, 3)), 3)
+        binary = rng.random() < 0.5
+        y = rs.binomial(1, _expit(X[:, 0] - 0.5 * X[:, 1])).astype(float) if binary else np.round(X[:, 0] - 0.5 * X[:, 1] + rs.normal(size=n), 3)
+        Xn = np.round(rs.normal(size=(7, 3)), 3)
+        if rng.random() < 0.4:
+            for v in (X, y, Xn):
+                v.flags.writeable = False
+        inp = {'X': X, 'y': y, 'Xnew': Xn}
+        fam_ = sm.families.family.Binomial() if binary else sm.families.family.Gaussian()
+        which = rng.choice(['EmpiricalMeanSL', 'GLMSL', 'StepwiseSL', 'SuperLearner'])
+
+        def go():
+            if which == 'EmpiricalMeanSL':
+                e = EmpiricalMeanSL()
+            elif which == 'GLMSL':
+                e = GLMSL(fam_)
+            elif which == 'StepwiseSL':
+                e = StepwiseSL(fam_, selection=rng.choice(['forward', 'backward']), order_interaction=rng.choice([0, 1]))
+            else:
+                e = SuperLearner([EmpiricalMeanSL(), GLMSL(fam_)], ['mean', 'glm'], folds=3, loss_function='nloglik' if binary else 'L2')
+            e.fit(inp['X'], inp['y'])
+            return e.predict(inp['Xnew'])
+        return inp, go
+    T['superlearner'] = sl
+
+    def mcrr(rng):
+        from zepid.sensitivity_analysis import MonteCarloRR, trapezoidal
+        rs = np.random.RandomState(rng.randrange(2 ** 31))
+        m = 500
+        inp = {'rr': rs.uniform(1.5, 3, m), 'p1': rs.uniform(0.3, 0.6, m), 'p0': rs.uniform(0.1, 0.3, m)}
+
+        def go():
+            np.random.seed(3)
+            o = MonteCarloRR(observed_RR=1.8, sd=0.2, sample=m)
+            o.confounder_RR_distribution(inp['rr'])
+            o.prop_confounder_exposed(inp['p1'])
+            o.prop_confounder_unexposed(inp['p0'])
+            o.fit()
+            o.summary()
+            o.plot()
+            return o.corrected_RR
+        return inp, go
+    T['sensitivity_analysis.MonteCarloRR'] = mcrr
+
+    def xfit(rng):
+        from sklearn.linear_model import LogisticRegression, LinearRegression
+        import zepid.causal.doublyrobust as dr
+        which = rng.choice(['SingleCrossfitAIPTW', 'SingleCrossfitTMLE', 'DoubleCrossfitAIPTW', 'DoubleCrossfitTMLE'])
+        out = rng.choice(['binary', 'normal'])
+        df = gen_frame(rng, {'n': rng.randint(90, 140), 'outcome': out, 'missing': None, 'index': rng.choice(INDEXES)})
+        inp = {'df': df}
+
+        def go():
+            e = getattr(dr, which)(inp['df'], 'A', 'Y')
+            e.exposure_model('W0 + C0', LogisticRegression(penalty=None, solver='lbfgs'), bound=rng.choice([False, 0.05]))
+            e.outcome_model('A + W0 + C0', LogisticRegression(penalty=None, solver='lbfgs') if out == 'binary' else LinearRegression())
+            e.fit(n_splits=2 if which.startswith('Single') else 3, n_partitions=2, random_state=rng.randrange(10 ** 6))
+            e.summary()
+            return True
+        return inp, go
+    T['crossfit'] = xfit
+    return T
+
+
+def function_part(ctx, fails, info, only=None):
+    T = function_table()
+    reps = {'crossfit': 2 if ctx.quick else 10, 'graphics': 8 if ctx.quick else 60, 'superlearner': 6 if ctx.quick else 60,
+            'causal.utils.diagnostic-functions': 8 if ctx.quick else 80}
+    jobs = []
+    if only:
+        jobs = [(only['name'], only['seed'])]
+    else:
+        for name in T:
+            for _ in range(reps.get(name, 4 if ctx.quick else 40)):
+                jobs.append((name, ctx.rng.randrange(2 ** 31)))
+    raised = {}
+    for name, seed in jobs:
+        rng = random.Random(seed)
+        try:
+            inputs, thunk = T[name](rng)
+        except Exception as e:   # noqa
+            ctx.notes.append('function part: could not build inputs for %s: %s' % (name, errstr(e)))
+            continue
+        snaps = {k: snapshot(v) for k, v in inputs.items()}
+        ctx.evaluations += 1
+        ctx.programs += 1
+        ctx.count('function:' + name)
+        ctx.nontriv(['func', name, seed])
+        err = None
+        try:
+            with quiet():
+                thunk()
+        except Exception as e:   # noqa
+            err = errstr(e)
+            raised.setdefault(name, [])
+            if err[:60] not in [x[:60] for x in raised[name]] and len(raised[name]) < 5:
+                raised[name].append(err)
+        d = inputs_changed(inputs, snaps)
+        ctx.disagreements_checked += 1
+        if d:
+            kinds = {k: snaps[k]['kind'] + ('(read-only)' if snaps[k].get('writeable') is False else '') for k in snaps}
+            fails.append((sum(len(v) if hasattr(v, '__len__') else 1 for v in inputs.values()), '%s.mutates-input' % name,
+                          '%s changed its argument %s (arguments: %r%s)' % (name, d, kinds, '; the call raised ' + err if err else ''),
+                          {'part': 'function', 'name': name, 'seed': seed}))
+    for k, v in raised.items():
+        info['diagnostic-raises'].setdefault('function ' + k, ' || '.join(v))
+
+
+EXTRA_PARTS[:] = [base_refit_part, mc_add_twice_part, function_part]
+PART_BY_NAME.update({'function': function_part, 'base_refit': base_refit_part, 'mc_add_twice': mc_add_twice_part})
